@@ -340,7 +340,17 @@ class Engine:
         if d is None:
             return None
         pos = self.position()
-        return Op("Library.add_definition", lambda: l.add_definition(d, pos), "add_definition", st, l, (d,))
+        if d.library is None and len(l.definitions) >= 2 and self.invalid() and self.r.random() < 0.5:
+            # an orphan that carries the name of a member, offered at a position in the MIDDLE of the list: refused by the naming
+            # rules - and the list is what it was, member for member
+            named = [x.name for x in l.definitions if x.name]
+            if named:
+                try:
+                    d.name = self.pick(named)
+                    pos, st = self.r.choice([0, 1, -1, len(l.definitions) - 1]), "name-collision"
+                except ValueError:
+                    pass
+        return Op("Library.add_definition", lambda: l.add_definition(d, pos), "add_definition(%s,pos=%r)" % (st, pos), st, l, (d,))
 
     def op_remove_definition(self):
         l = self.pick(self.u.libs)
